@@ -203,11 +203,15 @@ PROPS["C15"] = {"fn": c15, "level": "other",
 
 
 def _tmp_all_tmpl(run, ctx):
-    fam_tmpl.compile_repeat(run, ctx)
-    fam_tmpl.compile_lookaround_dispatch(run, ctx)
-    fam_tmpl.ctx_rule(run, ctx)
-    fam_tmpl.concat_predicates(run, ctx)
-    fam_tmpl.visit_delegation_gate(run, ctx)
+    import fam_enc
+    fam_enc.opcode_rule(run, ctx)
+    fam_enc.assertion_rule(run, ctx)
+    fam_enc.any_arms_rule(run, ctx)
+    fam_enc.byte_class_tables(run, ctx)
+    fam_enc.printable_rule(run, ctx)
+    fam_enc.escape_rule(run, ctx)
+    fam_enc.slot_rule(run, ctx)
+    fam_enc.wrap_tree_rule(run, ctx)
 
 
 PROPS["TMP"] = {"fn": _tmp_all_tmpl, "level": "other", "explanation": "tmp", "technique": "", "claim": "", "note": ""}
